@@ -1,7 +1,8 @@
 import P2.Model.Ratchet
 import P2.Drv.Util
 /-
-Request:  `<fwd> <ooo> <tok>*`, tok = `<g>` (request generation g with the default windows) or
+Request:  `[@<base>] <fwd> <ooo> <tok>*` (`@<base>`: start at head generation `base`, empty past queue —
+          the state one accepted jump to `base-1` with tolerance 0 leaves), tok = `<g>` (request generation g with the default windows) or
           `<g>/<fwd>/<ooo>` (this call uses its own windows).
 Answer:   per tok `k<n>` (key material of sender generation n) or `E:future|E:past|E:oob|E:reuse`,
           then `| h<head generation> <past queue>` with `-` for `None`, `k<n>` for `Some`, front first.
@@ -32,17 +33,27 @@ def pastStr : Option Nat → String
   | none => "-"
   | some k => s!"k{k}"
 
-def handle (line : String) : String :=
-  match tokens line with
+def handleFrom (y0 : Recv Nat Nat) (toks : List String) : String :=
+  match toks with
   | fS :: oS :: toks =>
     match fS.toNat?, oS.toNat? with
     | some f, some o =>
       match toks.mapM (parseTok f o) with
       | some reqs =>
-        let (y, outs) := run kdfN (Recv.init 0) reqs
+        let (y, outs) := run kdfN y0 reqs
         " ".intercalate (outs.map ansStr ++ ["|", s!"h{y.head.gen}"] ++ y.past.map pastStr)
       | none => "bad-op"
     | _, _ => "bad-op"
   | _ => "bad-op"
+
+def handle (line : String) : String :=
+  match tokens line with
+  | t :: rest =>
+    if t.startsWith "@" then
+      match (t.drop 1).toNat? with
+      | some b => handleFrom { past := [], head := { secret := b, gen := b } } rest
+      | none => "bad-op"
+    else handleFrom (Recv.init 0) (t :: rest)
+  | [] => "bad-op"
 
 def main : IO Unit := runMain handle
